@@ -27,7 +27,10 @@ type cfgT struct {
 
 type reqT struct {
 	Remote string
-	Hdr    map[string]string // header name -> value ("" = absent)
+	Hdr    map[string]string // canonical header name -> value of its FIRST field line ("" = absent)
+	// More: further field lines of the same header, sent after the first one. The code reads headers with
+	// Header.Get, i.e. the first line only: these must have no influence.
+	More map[string][]string `json:",omitempty"`
 }
 
 // caseT is the concrete case; it travels as JSON in the trailing comment of the case line so that
@@ -57,9 +60,16 @@ var cidrPool = [][]string{
 	{"0.0.0.0/0"},
 	{"127.0.0.1/32", "2001:db8::/32"},
 	{},
+	{"10.1.2.3/8", "192.168.1.7/16"},       // host bits set: ParseCIDR keeps the network only
+	{"::ffff:10.0.0.0/104", "127.0.0.1/8"}, // IPv4-mapped notation
+	{"::/0"},
+	{"0.0.0.0/0", "::/0"},
+	{"10.0.0.1/32", "10.0.0.0/8", "10.0.0.1/32"}, // duplicates and nesting
+	{"fe80::/10", "fd00::/8", "::1/128", "::ffff:127.0.0.0/104"},
 }
 
-var trustedIPs = []string{"10.0.0.1", "10.0.0.2", "10.1.2.3", "127.0.0.1", "192.168.1.1", "::1", "fd00::1", "2001:db8::5", "10.255.255.255"}
+var trustedIPs = []string{"10.0.0.1", "10.0.0.2", "10.1.2.3", "127.0.0.1", "192.168.1.1", "::1", "fd00::1", "2001:db8::5", "10.255.255.255",
+	"::ffff:10.0.0.1", "::ffff:127.0.0.1", "0:0:0:0:0:ffff:a00:2", "fd00:0:0::1", "010.0.0.1"}
 var untrustedIPs = []string{"9.9.9.9", "203.0.113.7", "8.8.8.8", "2001:4860::8888", "172.16.0.9", "1.1.1.1", "11.0.0.1", "::ffff:9.9.9.9"}
 var garbage = []string{"", " ", "unknown", "1.2.3", "1.2.3.4:80", "[::1]:80", "fe80::1%eth0", "999.1.1.1", "a,b", "10.0.0.1 x", "\t10.0.0.2\t", " 9.9.9.9 ", "0x7f.1", "::", "1.2.3.4.5", "_hidden", "127.1", "010.0.0.1", "１.２.３.４"}
 var hdrNames = []string{"X-Forwarded-For", "X-Real-IP", "CF-Connecting-IP", "Fastly-Client-IP", "True-Client-IP"}
@@ -129,8 +139,27 @@ func genCase(r *hx.Rand) (cfgT, reqT) {
 		if r.Chance(2, 3) && !contains(c.Headers, "X-Forwarded-For") {
 			c.Headers[r.Intn(n)] = "X-Forwarded-For"
 		}
+		c.Headers = append([]string(nil), c.Headers...)
+		if r.Chance(1, 6) { // configured names in odd case, repeated, or empty
+			i := r.Intn(len(c.Headers))
+			switch r.Intn(5) {
+			case 0:
+				c.Headers[i] = strings.ToLower(c.Headers[i])
+			case 1:
+				c.Headers[i] = strings.ToUpper(c.Headers[i])
+			case 2:
+				c.Headers = append(c.Headers, c.Headers[0])
+			case 3:
+				c.Headers[i] = ""
+			default:
+				c.Headers = append([]string{"x-real-ip"}, c.Headers...)
+			}
+		}
 	}
 	c.MaxHops = r.Range(0, 5)
+	if r.Chance(1, 20) {
+		c.MaxHops = hx.Pick(r, []int{-1, -100, 6, 50, 1 << 30})
+	}
 	c.Diag = r.Chance(1, 3)
 	var q reqT
 	peer := ""
@@ -182,6 +211,17 @@ func genCase(r *hx.Rand) (cfgT, reqT) {
 			q.Hdr[h] = genXFF(r) // a list where a single address is expected
 		} else {
 			q.Hdr[h] = genItem(r)
+		}
+	}
+	if r.Chance(1, 5) { // further field lines (Header.Get sees the first one only)
+		q.More = map[string][]string{}
+		for _, h := range hdrNames {
+			if _, ok := q.Hdr[h]; ok && r.Chance(1, 2) {
+				q.More[h] = []string{genXFF(r)}
+				if r.Chance(1, 3) {
+					q.More[h] = append(q.More[h], genItem(r))
+				}
+			}
 		}
 	}
 	return c, q
@@ -303,8 +343,12 @@ func emitObs(id string, k caseT, res string, ok bool, st *hx.Stats) string {
 			order = append(order, item)
 		}
 	}
+	canonHdr := map[string]string{}
+	for k, v := range q.Hdr {
+		canonHdr[http.CanonicalHeaderKey(k)] = v
+	}
 	for _, h := range headers {
-		v := q.Hdr[h]
+		v := canonHdr[http.CanonicalHeaderKey(h)] // Header.Get canonicalises the configured name
 		if h == "X-Forwarded-For" {
 			l.Tok("X").Str(v)
 			parts := splitTrim(v)
@@ -406,6 +450,14 @@ func applyReq(req *http.Request, q reqT) {
 	}
 	for k, v := range q.Hdr {
 		req.Header.Set(k, v)
+	}
+	for k, vs := range q.More {
+		if _, ok := q.Hdr[k]; !ok {
+			continue
+		}
+		for _, v := range vs {
+			req.Header.Add(k, v)
+		}
 	}
 }
 
@@ -582,10 +634,10 @@ func main() {
 			c cfgT
 			q reqT
 		}{
-			{cfgT{Cidrs: []string{"10.0.0.0/8"}, MaxHops: 1}, reqT{"10.0.0.1:1234", map[string]string{"X-Forwarded-For": "9.9.9.9, 10.0.0.2"}}},
-			{cfgT{Cidrs: []string{"10.0.0.0/8", "127.0.0.0/8"}, MaxHops: 5}, reqT{"10.0.0.1:1234", map[string]string{"X-Forwarded-For": "127.0.0.1, 9.9.9.9"}}},
-			{cfgT{Cidrs: []string{"10.0.0.0/8"}, MaxHops: 3}, reqT{"10.0.0.1:1234", map[string]string{"X-Forwarded-For": "203.0.113.1, 70.41.3.18, 150.172.238.178"}}},
-			{cfgT{Cidrs: []string{"10.0.0.0/8"}, MaxHops: 2}, reqT{"10.0.0.1:1234", map[string]string{"X-Forwarded-For": "203.0.113.1, 10.0.0.1, 10.0.0.2"}}},
+			{cfgT{Cidrs: []string{"10.0.0.0/8"}, MaxHops: 1}, reqT{"10.0.0.1:1234", map[string]string{"X-Forwarded-For": "9.9.9.9, 10.0.0.2"}, nil}},
+			{cfgT{Cidrs: []string{"10.0.0.0/8", "127.0.0.0/8"}, MaxHops: 5}, reqT{"10.0.0.1:1234", map[string]string{"X-Forwarded-For": "127.0.0.1, 9.9.9.9"}, nil}},
+			{cfgT{Cidrs: []string{"10.0.0.0/8"}, MaxHops: 3}, reqT{"10.0.0.1:1234", map[string]string{"X-Forwarded-For": "203.0.113.1, 70.41.3.18, 150.172.238.178"}, nil}},
+			{cfgT{Cidrs: []string{"10.0.0.0/8"}, MaxHops: 2}, reqT{"10.0.0.1:1234", map[string]string{"X-Forwarded-For": "203.0.113.1, 10.0.0.1, 10.0.0.2"}, nil}},
 		}
 		for i, f := range fixed {
 			fmt.Fprintln(w, emit(fmt.Sprintf("c18-fix-%d", i), f.c, f.q, st))
@@ -615,9 +667,9 @@ func main() {
 			}
 			if i < 2 {
 				c = cfgT{Cidrs: []string{"10.0.0.0/8"}, MaxHops: 2}
-				qs = []reqT{{"10.0.0.1:1", map[string]string{"X-Forwarded-For": "9.9.9.9"}},
-					{"[" + v6WithLow32("10.0.0.1") + "]:1", map[string]string{"X-Forwarded-For": "6.6.6.6"}},
-					{"10.0.0.1:1", map[string]string{"X-Forwarded-For": "6.6.6.6, " + v6WithLow32("10.0.0.1")}}}
+				qs = []reqT{{"10.0.0.1:1", map[string]string{"X-Forwarded-For": "9.9.9.9"}, nil},
+					{"[" + v6WithLow32("10.0.0.1") + "]:1", map[string]string{"X-Forwarded-For": "6.6.6.6"}, nil},
+					{"10.0.0.1:1", map[string]string{"X-Forwarded-For": "6.6.6.6, " + v6WithLow32("10.0.0.1")}, nil}}
 			}
 			res, oks := observeSession(c, qs)
 			for j := range qs {
@@ -636,7 +688,7 @@ func main() {
 			if i%2 == 0 { // A trusts everything, B trusts nothing: any leak of A's configuration into B shows
 				other = cfgT{Cidrs: []string{"0.0.0.0/0", "::/0"}, MaxHops: 5}
 				c.Cidrs = nil
-				qa = reqT{"10.0.0.1:1", map[string]string{"X-Forwarded-For": "7.7.7.7"}}
+				qa = reqT{"10.0.0.1:1", map[string]string{"X-Forwarded-For": "7.7.7.7"}, nil}
 				if q.Hdr["X-Forwarded-For"] == "" {
 					q.Hdr["X-Forwarded-For"] = "6.6.6.6"
 				}
@@ -651,8 +703,8 @@ func main() {
 			_, q2 := genCase(r)
 			if i < 2 { // fixed shape: trusted peer with a forged chain, then the peer becomes untrusted
 				c = cfgT{Cidrs: []string{"10.0.0.0/8"}, MaxHops: 2}
-				q1 = reqT{"10.0.0.1:1234", map[string]string{"X-Forwarded-For": "6.6.6.6"}}
-				q2 = reqT{"9.9.9.9:1234", map[string]string{"X-Forwarded-For": "6.6.6.6"}}
+				q1 = reqT{"10.0.0.1:1234", map[string]string{"X-Forwarded-For": "6.6.6.6"}, nil}
+				q2 = reqT{"9.9.9.9:1234", map[string]string{"X-Forwarded-For": "6.6.6.6"}, nil}
 			}
 			res1, res2, ok := observeTwice(c, q1, q2)
 			id := fmt.Sprintf("c18-%d-t%d", a.Seed, i)
